@@ -43,6 +43,7 @@ ASSUMPTIONS = [
     "an open socket is not required to make the generator terminate; the consumer stops after the expected packets",
     "sampled, not exhaustive: a clean batch is evidence, not proof",
 ]
+DEGRADED_PROBES = ("trim_knob_unavailable", "clock_seam_unavailable")
 EXPECTED_PROBES = ("b_in_prefix", "b_in_header", "b_at_header_end", "b_in_body", "b_on_packet_end", "read_size_1",
                    "max_packet", "trim_taken", "genuine_trim_taken")
 
